@@ -74,7 +74,7 @@ def keys_of(t, env, seen=None, acc=None):
             keys_of(ty, env, seen, acc)
         if t[2] is not None:
             keys_of(t[2], env, seen, acc)
-            if idx_dom(t) != 'string':
+            if idx_dom(t) == 'number':
                 acc.add('0')
     elif k in ('arr', 'not'):
         keys_of(t[1], env, seen, acc)
@@ -336,7 +336,7 @@ def merge_and(ts, env):
             rest = ts[:i] + ts[i + 1:]
             return ('or', [('and', [alt] + rest) for alt in x[1]])
     objs = [x for x in ts if x[0] == 'obj']
-    if any(idx_dom(o) != 'string' for o in objs):
+    if any(idx_dom(o) == 'number' for o in objs):
         raise NotImplementedError('intersection of objects with non-string index key domains')
     if len(objs) < 2:
         if len(objs) == 1 and len(ts) > 1:
